@@ -639,6 +639,7 @@ type tinyBackend struct {
 	mu      sync.Mutex
 	cond    *sync.Cond
 	got     map[string]int // "b/<from>" or "p/<from>"
+	empty   []string       // hand-overs of zero-length messages ("<from>/<bcast>")
 }
 
 func newTiny(size int, self uint16) *tinyBackend {
@@ -674,6 +675,12 @@ func (t *tinyBackend) Init(parties []uint16, threshold int, send func([]byte, bo
 
 func (t *tinyBackend) OnMsg(m []byte, from uint16, bcast bool) {
 	t.mu.Lock()
+	if len(m) == 0 {
+		t.empty = append(t.empty, fmt.Sprintf("from %d, broadcast=%v", from, bcast))
+		t.cond.Broadcast()
+		t.mu.Unlock()
+		return
+	}
 	if bcast {
 		t.got[fmt.Sprintf("b/%d", from)]++
 	} else {
@@ -828,6 +835,112 @@ func unitC04tiny(e common.Env, p *common.Part) {
 					p.Count("sessions", 1)
 					if what != "" {
 						p.Violate("totality/short-messages", key+": "+what, map[string]interface{}{"size": size, "n": N, "mode": mode, "sign": sign})
+					}
+				}
+			}
+		}
+	}
+}
+
+// unitC03marker: a session member sends frames that consist of the framing marker alone (no payload), on the topic of a live
+// session, to every other party, right before its genuine transmissions. The backend's classifier accepts a zero-length input
+// (as the repository's own test backends do), so whether such a frame is handed over is decided by the orchestrator alone.
+func unitC03marker(e common.Env, p *common.Part) {
+	p.Rule = "key generation and signing sessions of real Loud / barrier schemes, N = 3,4, random mode, backend with 1..2-byte messages whose classifier accepts a zero-length input as a broadcast; one session member additionally sends, on the live topic and to every other party, frames that consist of the first (framing) byte alone - 0x80, 0x81, 0xC0, 0xFF - and two-byte frames 0x00 0x00 / 0x7F 0xFF (too short for an acknowledgement), right before its own first genuine transmission; oracle: no backend is ever handed a zero-length message, every genuine message is handed over exactly once and every call returns nil; distinct key = (N, mode, operation, size, frame set); non-trivial when the frames were injected into a live session"
+	idx := 0
+	frameSets := [][][]byte{{{0xFF}}, {{0x80}}, {{0x81}, {0xC0}}, {{0xFF}, {0xFF}}, {{0x00, 0x00}, {0x7F, 0xFF}, {0x80}}}
+	for _, size := range []int{1, 2} {
+		for N := 3; N <= 4; N++ {
+			for _, mode := range []string{"loud", "barrier"} {
+				for _, sign := range []bool{false, true} {
+					for fi, frames := range frameSets {
+						idx++
+						if !e.Mine(idx) || p.ViolationCount() >= 3 {
+							continue
+						}
+						key := fmt.Sprintf("%d-byte messages N=%d %s sign=%v marker frames #%d", size, N, mode, sign, fi)
+						p.Begin(key)
+						var ids []uint16
+						for k := 1; k <= N; k++ {
+							ids = append(ids, uint16(k))
+						}
+						B := ids[idx%N]
+						var bmu sync.Mutex
+						backs := map[uint16]*tinyBackend{}
+						mkb := func(node uint16) *tinyBackend {
+							b := newTiny(size, node)
+							bmu.Lock()
+							backs[node] = b
+							bmu.Unlock()
+							return b
+						}
+						c := newRCluster(cluster.Config{Map: identityMap(ids...), Barrier: mode == "barrier", Threshold: N - 1,
+							KGF: func(node uint16) tss.KeyGenerator { return mkb(node) }, SF: func(node uint16) tss.Signer { return mkb(node) }}, e.Rng("c03marker", idx), simnet.Uniform)
+						for _, u := range ids {
+							c.Schemes[u].SetStoredData([]byte("share-tiny"))
+						}
+						var once sync.Once
+						injected := int32(0)
+						c.Net.SetInterceptor(B, func(nw *simnet.Net, src uint16, typ uint8, tp, data []byte, dsts []uint16) []simnet.Outgoing {
+							if typ == uint8(tss.MsgTypeMPC) {
+								once.Do(func() {
+									for _, f := range frames {
+										for _, d := range ids {
+											if d != B {
+												nw.Inject(B, simnet.Outgoing{Dst: d, Type: typ, Topic: tp, Data: f})
+												atomic.AddInt32(&injected, 1)
+											}
+										}
+									}
+								})
+							}
+							var o []simnet.Outgoing
+							for _, d := range dsts {
+								o = append(o, simnet.Outgoing{Dst: d, Type: typ, Topic: tp, Data: data})
+							}
+							return o
+						})
+						timeout := 4 * time.Second
+						res := c.run(sessCfg{Callers: ids, Sign: sign, Topic: "marker-topic", Digest: []byte("0123456789abcdef0123456789abcdef"), Timeout: timeout})
+						c.drain(50 * time.Millisecond)
+						what, sig := "", ""
+						bmu.Lock()
+						for _, u := range ids {
+							if b := backs[u]; b != nil {
+								b.mu.Lock()
+								if len(b.empty) > 0 && what == "" {
+									sig, what = "integrity/empty-handover/marker-only-frame", fmt.Sprintf("the backend of node %d was handed a zero-length message (%s) after party %d sent frames that consist of the framing byte alone", u, b.empty[0], B)
+								}
+								for _, f := range ids {
+									if f != u && what == "" && res.Errs[u] == nil {
+										if n := b.got[fmt.Sprintf("b/%d", f)]; n != 1 {
+											sig, what = "integrity/handed-over-twice-or-never/marker-only-frame", fmt.Sprintf("the broadcast of party %d was handed over %d times at node %d", f, n, u)
+										}
+									}
+								}
+								b.mu.Unlock()
+							}
+						}
+						bmu.Unlock()
+						if what == "" {
+							for _, u := range ids {
+								if res.Errs[u] != nil && (res.Elapsed < timeout || res.QuietAtFirstReturn >= 2*time.Second) {
+									sig, what = "session-disturbed/marker-only-frame", fmt.Sprintf("node %d: %v although the only deviation were frames without a payload from party %d", u, res.Errs[u], B)
+									break
+								} else if res.Errs[u] != nil {
+									p.Count("undecided_deadlines", 1)
+									break
+								}
+							}
+						}
+						c.Stop()
+						inj := atomic.LoadInt32(&injected)
+						p.Case(key, inj > 0)
+						p.Count("sessions", 1)
+						p.Count("marker_only_frames_injected", int64(inj))
+						if what != "" {
+							p.Violate(sig, key+": "+what, map[string]interface{}{"size": size, "n": N, "mode": mode, "sign": sign, "frames": fmt.Sprintf("%x", frames), "byzantine": B})
+						}
 					}
 				}
 			}
